@@ -96,19 +96,21 @@ def run(ctx):
     pairs = [(a, b) for a in _ver.BOUNDARY for b in _ver.BOUNDARY]
     pairs += [(rng.choice(pool), rng.choice(pool)) for _ in range(ctx.n(6000, 80000))]
     pairs += [p for p in _ver.version_pairs(ctx, ctx.n(6000, 80000)) if _ver.valid(p[0]) and _ver.valid(p[1])]
+    pairs += _ver.BIG_PAIRS
     ctx.exhaustive.append('all %d ordered pairs of the %d boundary versions' % (len(_ver.BOUNDARY) ** 2, len(_ver.BOUNDARY)))
 
     bad = ctx.compare('corr:version_ops', [('version_ops', [a, b]) for a, b in pairs], impl)
     ec = [(a, op, b) for a, b in pairs[:ctx.n(3000, 30000)] for op in OPS + BAD_OPS[:2]]
     bad += ctx.compare('corr:eval_constraint', [('eval_constraint', list(x)) for x in ec], impl)
 
-    fails = ctx.prop('prop:pair-laws', pairs, p_pair)
+    fails = ctx.prop('prop:pair-laws', pairs + [(a, b) for a in _ver.BIG for b in _ver.BIG], p_pair)
     triples = [tuple(t) for t in itertools.product(_ver.BOUNDARY[:ctx.n(14, 28)], repeat=3)]
     ctx.exhaustive.append('all %d ordered triples of the first boundary versions' % len(triples))
     for _ in range(ctx.n(8000, 150000)):
         a = rng.choice(pool)
         near = [x for x in V.variants(rng, a) if _ver.valid(x)] + [rng.choice(pool)]
         triples.append((a, rng.choice(near), rng.choice(near)))
+    triples += [tuple(t) for t in itertools.product(_ver.BIG[:6], repeat=3)]
     fails += ctx.prop('prop:triple-laws', triples, p_triple)
     lists = []
     for _ in range(ctx.n(600, 8000)):
@@ -116,6 +118,8 @@ def run(ctx):
         src = pool if rng.random() < .7 else [x for v in rng.sample(pool, min(4, len(pool))) for x in V.variants(rng, v) if _ver.valid(x)]
         lists.append([rng.choice(src) for _ in range(n)] if src else [])
     for p in itertools.permutations(['1.0', '1.00', '0:1.0', '1.0-0', '1.0~a', '1.0a'], 4):
+        lists.append(list(p))
+    for p in itertools.permutations(_ver.BIG[:4] + _ver.EPOCHS[:3], 3):
         lists.append(list(p))
     fails += ctx.prop('prop:sorted', lists, p_sorted)
 
